@@ -305,7 +305,10 @@ pub fn check(case: &Case, known: &Known, mode: Mode, hazard: bool) -> Outcome {
             out.verdict = Verdict::Known("C07-loop-after-sort-arity".into(), bound.errors[0].clone());
             continue;
         }
-        if sql.contains("DISTINCT ON") && !bound.errors.is_empty()
+        // (also when a later de-duplication of the whole row merges the DISTINCT ON into a plain
+        // DISTINCT that keeps the ORDER BY of the grouped take)
+        let merged_distinct = sql.contains("SELECT DISTINCT ") && src.contains("take 1") && src.contains("sort {(");
+        if (sql.contains("DISTINCT ON") || merged_distinct) && !bound.errors.is_empty()
             && bound.errors.iter().all(|e| (e.starts_with("ORDER BY: column _expr_") || e.starts_with("SELECT: column _expr_")) && e.ends_with("is not in scope"))
             && known.is_open("C07-distinct-on-computed-sort-key")
         {
